@@ -2,6 +2,7 @@ import TapkeeVerif.Model.Util
 import TapkeeVerif.Model.Mat
 import TapkeeVerif.Model.DMat
 import TapkeeVerif.Model.Spe
+import TapkeeVerif.Gen.SpeVariant
 import TapkeeVerif.Model.RandProj
 import TapkeeVerif.Model.Fa
 /-! Line-protocol driver for the C19 models (SPE, Random Projection, Factor Analysis) at `K := Rat`.
@@ -100,7 +101,7 @@ def answerSpe (fs : List (String × String)) : String :=
       let y0A : Array (Array Rat) :=
         if full then (y0.map List.toArray).toArray else Array.replicate N (Array.replicate d 0)
       let inp : Spe.Input Rat :=
-        { N := N, d := d, global := global, nb := nb, nupReq := nup, maxIterReq := T, tol := tol,
+        { N := N, d := d, inPlace := Gen.spePartnersInPlace, global := global, nb := nb, nupReq := nup, maxIterReq := T, tol := tol,
           dist := fun a b => dmA.getD (a * N + b) 0,
           y0 := y0A, shuffle := fun t => permsA.getD t [], unif := fun c => unifA.getD c 0,
           sqrtO := if full then sqrtR else fun _ => 0, floorO := Rat.floor }
@@ -130,12 +131,10 @@ def answerSpe (fs : List (String × String)) : String :=
             match fuel with
             | 0 => .ok acc
             | fuel + 1 =>
-              match Spe.idxStep global nb k nupc (inp.shuffle t) fv (t * Spe.drawsPerIter global nupc) idx with
+              match Spe.stepPairs Gen.spePartnersInPlace global nb k nupc (inp.shuffle t) fv
+                      (t * Spe.drawsPerIter global nupc) idx with
               | .error e => .error e
-              | .ok idx' =>
-                match Spe.pairsOf nupc idx' nupc 0 with
-                | .error e => .error e
-                | .ok ps => go fuel (t + 1) idx' (ps :: acc)
+              | .ok (idx', ps) => go fuel (t + 1) idx' (ps :: acc)
           match go iters 0 (List.range N) [] with
           | .error e => head ++ " " ++ errName e
           | .ok tr =>
